@@ -1140,6 +1140,50 @@ fn hostile_segment(a: &mut Audio, rng: &mut Rng, kind: usize) -> &'static str {
             }
             "malformed_transmission"
         }
+        12 => {
+            // preamble bytes whose bit phase slips every few bytes (F9's carrier), 1..6 s
+            let nbits = ((1.0 + rng.unit() * 5.0) * BAUD) as usize;
+            let mut bits: Vec<bool> = Vec::with_capacity(nbits + 64);
+            while bits.len() < nbits {
+                for _ in 0..rng.range(5, 9) {
+                    for bit in 0..8 {
+                        bits.push((0xABu8 >> bit) & 1 == 1);
+                    }
+                }
+                for _ in 0..rng.range(1, 7) {
+                    bits.push(rng.chance(1, 2));
+                }
+            }
+            a.bits(&bits, rng);
+            "phase_slip_preamble"
+        }
+        13 => {
+            // a stuck encoder: preamble, ZCZC, then valid characters for 2..8 s (several maximum-length frames)
+            let nbytes = ((2.0 + rng.unit() * 6.0) * BAUD / 8.0) as usize;
+            let mut p = b"ZCZC-".to_vec();
+            p.extend((0..nbytes).map(|_| *rng.pick(CALL_CHARS)));
+            a.burst(16, &p, rng);
+            "valid_char_carrier"
+        }
+        14 => {
+            // FSK on the right tones whose baud rate drifts away from 520.83 (alternating bits, continuous phase)
+            let n = rng.range(200, 1200) as usize;
+            let end_ratio = *rng.pick(&[0.5f64, 0.7, 1.3, 2.0]);
+            let mut phase = 0.0f64;
+            let mut xs: Vec<f32> = vec![];
+            for i in 0..n {
+                let baud = BAUD * (1.0 + (end_ratio - 1.0) * (i as f64) / (n as f64));
+                let sps = a.line.rate as f64 / baud;
+                let f = if i % 2 == 0 { MARK_HZ } else { SPACE_HZ };
+                let dphi = 2.0 * std::f64::consts::PI * f / a.line.rate as f64;
+                for _ in 0..(sps.round() as usize).max(1) {
+                    phase += dphi;
+                    xs.push((phase.sin() * a.line.amplitude) as f32);
+                }
+            }
+            a.raw(&xs);
+            "drifting_baud_fsk"
+        }
         _ => {
             let n = rng.range(1, rate as u64) as usize;
             let xs: Vec<f32> = (0..n).map(|i| ((i as f32 / n as f32) * 2.0 - 1.0) * big).collect();
@@ -1228,7 +1272,7 @@ pub fn run_hostile(ctx: &Ctx) {
             }
             None => {
                 for _ in 0..nseg {
-                    let k = rng.below(12) as usize;
+                    let k = rng.below(16) as usize;
                     kinds.push(hostile_segment(&mut a, &mut rng, k));
                 }
             }
